@@ -118,6 +118,8 @@ def judge_iterative(dep, rec, L, prop, probes):
     if len(E) and np.any(np.isnan(ll)):
         probe("returned_with_nan_likelihood:not-judged")
         return v, info
+    if A.randomize and A.parent_perm and np.isscalar(A.parent_perm[0].get("a")) and int(A.parent_perm[0]["a"]) != N:
+        v.append(Violation(prop, prop + ".shuffle", sig + ":shuffle-drawn-over-a-population-that-is-not-the-library", "rng.choice over %s items, the library has %d rows" % (A.parent_perm[0]["a"], N)))
     if A.randomize and A.perm is not None:
         perm = [int(x) for x in A.perm]
         if len(set(perm)) != len(perm) or any(x < 0 or x >= N for x in perm):
